@@ -2,12 +2,12 @@
 
 use super::c13::ext_bytes;
 use crate::common::*;
-use crate::engine::{bx, hash_of, GenPart, Property, Stats, Tier};
+use crate::engine::{bx, hash_of, EnumPart, GenPart, Property, Stats, Tier};
 use dvb_gse_rust::gse_decap::{DecapError, DecapMemoryError, DecapStatus, GseDecapMemory};
 use dvb_gse_rust::gse_encap::{ContextFrag, EncapStatus};
 use proptest::prelude::*;
 use serde::{Deserialize, Serialize};
-use serde_json::json;
+use serde_json::{json, Value};
 
 #[derive(Clone, Debug, PartialEq, Eq, Hash, Serialize, Deserialize)]
 pub enum Item {
@@ -298,12 +298,76 @@ fn check(c: &Case, st: &mut Stats) -> Result<(), String> {
     Ok(())
 }
 
+// ---- every short frame over a fixed packet alphabet ----------------------------------------------------
+
+const N_ALPHA: u64 = 16;
+const PADS: [u8; 5] = [0, 1, 2, 3, 9];
+
+fn enum_alphabet() -> Vec<Item> {
+    let a = Lab::Six(ALPHA6[0]);
+    vec![
+        Item::Complete { lab: a, len: 5, kind: 0 },
+        Item::Complete { lab: a, len: 0, kind: 0 },
+        Item::Complete { lab: Lab::Three(ALPHA3[0]), len: 5, kind: 0 },
+        Item::Complete { lab: Lab::Broadcast, len: 5, kind: 0 },
+        Item::Complete { lab: Lab::ReUse, len: 5, kind: 0 },
+        Item::Complete { lab: a, len: 5, kind: 1 },
+        Item::Complete { lab: a, len: 5, kind: 2 },
+        Item::Complete { lab: a, len: 5, kind: 3 },
+        Item::Complete { lab: a, len: 5, kind: 4 },
+        Item::Start { id: 0, lab: a, len: 30, first_payload: 5, ext: false },
+        Item::Start { id: 1, lab: Lab::Three(ALPHA3[0]), len: 30, first_payload: 5, ext: true },
+        Item::Cont { k: 0, n: 5, corrupt: false },
+        Item::Cont { k: 0, n: 100, corrupt: false },
+        Item::Cont { k: 0, n: 100, corrupt: true },
+        Item::Orphan { id: 3, end: false },
+        Item::Orphan { id: 3, end: true },
+    ]
+}
+
+fn enum_depth(t: Tier) -> u32 {
+    t.pick(5, 7)
+}
+
+fn enum_size(t: Tier) -> u64 {
+    PADS.len() as u64 * (1..=enum_depth(t)).map(|k| N_ALPHA.pow(k)).sum::<u64>()
+}
+
+fn enum_case(t: Tier, i: u64) -> Case {
+    let alpha = enum_alphabet();
+    let pad = PADS[(i % PADS.len() as u64) as usize];
+    let mut i = i / PADS.len() as u64;
+    let mut k = 1;
+    while k < enum_depth(t) && i >= N_ALPHA.pow(k) {
+        i -= N_ALPHA.pow(k);
+        k += 1;
+    }
+    let mut items = vec![];
+    for _ in 0..k {
+        items.push((false, alpha[(i % N_ALPHA) as usize].clone()));
+        i /= N_ALPHA;
+    }
+    Case { reuse: ReuseCfg::Default, storage: 10000, free_bufs: 4, know_mand: true, items, pad, garbage: None }
+}
+
+fn check_enum(i: u64, st: &mut Stats) -> Result<(), String> {
+    check(&enum_case(st.tier, i), st)
+}
+
 pub fn property() -> Property {
     Property {
         id: "C10",
         rule: "1..12/24 packets produced by the real encapsulator from several PDUs (complete packets with PDUs of 0..2 bytes and more, optional extensions, signalling protocol types 0x0081/0x0082, final mandatory extensions, mandatory extensions unknown to the receiver; first fragments with and without extensions; continuation packets of any open train, trains continuing across frames; end packets with a corrupted trailer; orphan fragments of trains the receiver never saw), laid back to back in frames with 0..39 trailing zero bytes, receivers with ample / too small / no storage and with or without knowledge of the mandatory ids; alternatively the first packet followed by random garbage. oracle: walker A (decap on the remaining slice, advance by the consumed length) sees every packet exactly once, in order, with the same outcome as twin B that gets each packet alone, every outcome consuming exactly the packet's length (rejections included), then a padding status consuming the rest when >= 2 bytes remain; garbage after a packet does not change its outcome; no emitted packet starts with a zero nibble. non-trivial = a frame of >= 3 packets with a rejected packet before an accepted one, an extension-bearing packet followed by other bytes, or padding; or the garbage variant",
         assumptions: &["both receivers are prepared identically and get delivered buffers back in the same order"],
-        parts: vec![Box::new(GenPart {
+        parts: vec![Box::new(EnumPart {
+            name: "all-short-frames",
+            rule: "one frame made of every sequence of 1..=5 (thorough 1..=7) items over 16 (complete packets: 6-byte / empty PDU / 3-byte / broadcast / explicit re-use / optional extension / signalling type / final mandatory extension / unknown mandatory extension; first fragments with and without extension; continuation by 5 bytes, to the end, to the end with a corrupted trailer; orphan intermediate and end fragments) followed by 0, 1, 2, 3 or 9 padding bytes; exhaustive for that alphabet and depth; same oracle as the frames",
+            size: enum_size,
+            exhaustive: |_| true,
+            check: check_enum,
+            describe: |t, i| serde_json::to_value(enum_case(t, i)).unwrap_or(Value::Null),
+            required_classes: &["completed", "fragmented", "padding", "end-with-bad-crc", "orphan-fragment", "signalling/final-mandatory"],
+        }), Box::new(GenPart {
             name: "frames",
             rule: "see property rule",
             cases: (1_500_000, 30_000_000),
